@@ -241,6 +241,10 @@ int pthread_mutex_unlock(pthread_mutex_t* m) {
 }
 static int cv_wait(pthread_cond_t* cv, pthread_mutex_t* m, int64_t deadline) {
     G_lock(); events++;
+    // Scheduling point while the mutex is still held and the thread is not yet a waiter: a thread can be pre-empted right before it
+    // calls pthread_cond_wait. Harmless for code that notifies under the mutex; a notifier that does not take the mutex can slip its
+    // notification in here, where it is lost (the classic lost wake-up).
+    reschedule();
     mowner[m] = nullptr;
     // a spurious wake-up is allowed by the specification of condition variables
     bool spur = opt.spuriousPermille > 0 && (int)(rnd() % 1000) < opt.spuriousPermille;
@@ -278,6 +282,7 @@ static int cv_wake(pthread_cond_t* cv, bool all) {
         std::vector<Th*> w; for (Th* t : ths) if (t->st == B_CV && t->obj == cv) w.push_back(t);
         if (!w.empty()) w[rnd() % w.size()]->st = RUN;
     }
+    reschedule();       // scheduling point right after a notification: the woken thread may run before the notifier's next statement
     G_unlock(); return 0;
 }
 int pthread_cond_signal(pthread_cond_t* cv) {
